@@ -388,6 +388,9 @@ void run_self_once(const char* entry, const std::string& variant, const typename
     seen.clear();
     r = ccall(s.h);
     std::vector<int> keep = seen;
+    // outputs are compared FIRST: the comparisons below (==, OK) may lazily re-minimize the object and with it a
+    // constraint system the entry has just returned a handle to
+    if (extra && m == "ret" && r >= 0) extra_ok = extra() ? 1 : 0;
     std::string after = s.dump();
     std::string tw = xdump(*twin);
     dump_eq = (after == tw || s.t() == *twin) ? 1 : 0;
@@ -396,7 +399,6 @@ void run_self_once(const char* entry, const std::string& variant, const typename
     const_ok = ((mutates || s.t() == *ref) && (!w || w->same())) ? 1 : 0;
     int ok = Dom::cok(s.h);
     usable = (ok == (twin->OK() ? 1 : 0)) ? 1 : 0;
-    if (extra && m == "ret" && r >= 0) extra_ok = extra() ? 1 : 0;
     seen = keep;
     delete twin;
     // s deleted through the C API here
